@@ -453,17 +453,18 @@ def r_cumslice(ctx: RuleCtx, col: Collector):
                 if inner is None:
                     continue
                 # scalar pick x[c[i]]
-                st = enclosing_stmt(n)
-                guard_ok = False
-                p = parent(st)
-                child = st
-                while p is not None and p is not f.node:
-                    if isinstance(p, ast.If) and child in p.body:
-                        t = norm(p.test)
-                        i = norm(inner[1])
-                        if t in (f"{inner[0]}[{i}+1]-{inner[0]}[{i}]==1", f"{inner[0]}[{i}+1]=={inner[0]}[{i}]+1"):
-                            guard_ok = True
-                    child, p = p, parent(p)
+                from .solver import guard_facts
+                cfg = ctx.flow.cfg(f)
+                nd = cfg.node_of(n)
+                i = norm(inner[1])
+                want = {f"{inner[0]}[{i}+1]-{inner[0]}[{i}]==1", f"{inner[0]}[{i}+1]=={inner[0]}[{i}]+1"}
+                guard_ok = nd is not None and any(t in want and pol for t, pol in guard_facts(cfg, nd))
+                # conditional expression form:  x[c[i]] if c[i+1]-c[i] == 1 else x[c[i]:c[i+1]]
+                pp = parent(n)
+                while pp is not None and not isinstance(pp, ast.stmt):
+                    if isinstance(pp, ast.IfExp) and norm(pp.test) in want and any(y is n for y in ast.walk(pp.body)):
+                        guard_ok = True
+                    pp = parent(pp)
                 if guard_ok:
                     col.ok(where_of(f), f.rel, line_of(n), stmt_key(n), "scalar pick under the length-1 guard")
                 else:
@@ -603,12 +604,15 @@ def r_vec_index(ctx: RuleCtx, col: Collector):
             continue
         for loop in [n for n in ast.walk(f.node) if isinstance(n, ast.For)]:
             it = loop.iter
-            if not (isinstance(it, ast.Call) and isinstance(it.func, ast.Name) and it.func.id == "enumerate"
-                    and isinstance(loop.target, ast.Tuple) and isinstance(loop.target.elts[0], ast.Name)):
+            if isinstance(it, ast.Call) and isinstance(it.func, ast.Name) and it.func.id == "enumerate" \
+                    and isinstance(loop.target, ast.Tuple) and isinstance(loop.target.elts[0], ast.Name):
+                if "variables" not in norm(it.args[0]):
+                    continue
+                idx = loop.target.elts[0].id
+            elif "variables" in norm(it) and not any(isinstance(x, ast.Call) and norm(x.func) == "enumerate" for x in ast.walk(it)):
+                idx = None       # no signal index in scope: nothing to confuse with an offset
+            else:
                 continue
-            if "variables" not in norm(it.args[0]):
-                continue
-            idx = loop.target.elts[0].id
             n_ok = 0
             for x in ast.walk(loop):
                 if isinstance(x, ast.Subscript) and isinstance(x.value, ast.Name) and x.value.id in vecs:
@@ -654,6 +658,33 @@ def r_count_floor(ctx: RuleCtx, col: Collector):
             col.bad(where_of(f), f.rel, line_of(n), stmt_key(n),
                     f"the entry count is not the fraction rounded *down* ({'uses ' + norm(inner_round[0].func) if inner_round else 'no int()/floor'}): "
                     f"a fraction that should round to zero entries removes one")
+    # the count selects *positions* in a sorted order (exactly n entries), not a cut-off value (ties change the number)
+    for n in counts:
+        cn = n.targets[0].id
+        positional = threshold = None
+        for x in ast.walk(f.node):
+            if not isinstance(x, ast.Subscript) or cn not in {y.id for y in ast.walk(x.slice) if isinstance(y, ast.Name)}:
+                continue
+            base = x.value
+            bdefs = [base]
+            if isinstance(base, ast.Name):
+                bdefs = [d.value for d in ast.walk(f.node) if isinstance(d, ast.Assign) and any(
+                    isinstance(t, ast.Name) and t.id == base.id for t in d.targets)] or [base]
+            txt = " ".join(norm(d) for d in bdefs)
+            if any(k in txt for k in ("argsort(", "argpartition(")) and isinstance(x.slice, ast.Slice):
+                positional = x
+            elif any(k in txt for k in ("np.partition(", "np.sort(", "sorted(", ".sort(")) and not isinstance(x.slice, ast.Slice):
+                threshold = x
+        construct = f"AggActiveSet: '{cn}' entries selected by position"
+        if threshold is not None:
+            col.bad(where_of(f), f.rel, line_of(threshold), construct,
+                    f"'{norm(threshold)}' turns the count into a cut-off *value* that is then compared with the data: when "
+                    f"values tie at the cut-off a different number of entries (possibly none) is removed than "
+                    f"floor(n*fraction)")
+        elif positional is not None:
+            col.ok(where_of(f), f.rel, line_of(positional), construct, f"slice of the sorting permutation '{norm(positional)}'")
+        else:
+            raise AnalysisError(f"AggActiveSet.__call__: cannot tell how the count '{cn}' selects entries")
 
 
 # ------------------------------------------------------------------------------------------------ None vs falsy
